@@ -138,7 +138,7 @@ class Cluster(object):
             if verbose:
                 print('length m0: ', self.signal_by_index(0).npts)
                 print('length m1: ', self.signal_by_index(1).npts)
-            length_check = min(self.signal_by_index(0).npts, self.signal_by_index(1).npts)
+            length_check = min([sig.npts for sig in self.signals.values()])
             bm = self.signal_by_index(self.master_index).values[:length_check]
             for s in range(len(self.signals)):
                 if s != self.master_index:
@@ -172,6 +172,7 @@ class Cluster(object):
                 if verbose:
                     print('lag index: ', min_ind)
 
+                om = slave_signal.values  # shift the whole record, not only the compared part
                 if min_ind < 0:  # pad with initial value
                     m_temp = [om[0]] * abs(min_ind) + list(om[:min_ind])
                 elif min_ind > 0:  # pad with final value
